@@ -256,7 +256,7 @@ def model_summary(m, limit=60):
     out = {}
     for d in m.decls()[:400]:
         nm = d.name()
-        if nm.startswith("H0_") or nm.startswith("H_") or nm.startswith("LH_") or "!" not in nm and d.arity() > 0:
+        if nm.startswith("H0_") or nm.startswith("H_") or nm.startswith("LH_") or nm.startswith("k_") or "!" not in nm and d.arity() > 0:
             continue
         if d.arity() == 0:
             v = m[d]
